@@ -82,7 +82,7 @@ inductive Ev where
   | stop (id : Nat) (piece : PStr)                 -- END_ELEMENT_EVENT
   | empty (piece : PStr)                           -- EMPTY_ELEMENT_EVENT
   | text (piece : PStr)                            -- STRING_ELEMENT_EVENT
-deriving Repr
+deriving Repr, DecidableEq
 
 def Ev.piece : Ev → PStr
   | .start _ p _ => p
@@ -102,6 +102,49 @@ def events : Node → List Ev
 def eventsL : List Node → List Ev
   | [] => []
   | k :: ks => events k ++ eventsL ks
+end
+
+/-! ### `_event_stream` itself: the tag stack over the pre-order with parent pointers -/
+
+/-- one element yielded by the iterator `_event_stream` walks (`self_and_descendants` / `descendants`): its `.parent` (by
+    identity) and what `decode` needs from it -/
+inductive FItem where
+  | tag (parent id : Nat) (isEmpty : Bool) (opn cls : PStr) (pre : Bool)   -- a Tag; `isEmpty` = `is_empty_element`
+  | str (parent : Nat) (ready : PStr)                                       -- a NavigableString
+deriving Repr
+
+def FItem.parent : FItem → Nat
+  | .tag p _ _ _ _ _ => p
+  | .str p _ => p
+
+/-- `while tag_stack and c.parent is not tag_stack[-1]: yield END, tag_stack.pop()` (element.py:2511-2513); the stack is
+    kept top-first, a frame is the tag's identity and its closing piece -/
+def popTo (par : Nat) : List (Nat × PStr) → List Ev × List (Nat × PStr)
+  | [] => ([], [])
+  | (i, c) :: st =>
+    if i = par then ([], (i, c) :: st)
+    else ((Ev.stop i c) :: (popTo par st).1, (popTo par st).2)
+
+/-- `Tag._event_stream(iterator)` (element.py:2486-2528) -/
+def streamImpl : List (Nat × PStr) → List FItem → List Ev
+  | st, [] => st.map fun f => Ev.stop f.1 f.2                    -- `while tag_stack: yield END, tag_stack.pop()`
+  | st, it :: rest =>
+    (popTo it.parent st).1 ++
+      (match it with
+       | .tag _ i isEmpty o c pre =>
+         if isEmpty then Ev.empty o :: streamImpl (popTo it.parent st).2 rest
+         else Ev.start i o pre :: streamImpl ((i, c) :: (popTo it.parent st).2) rest
+       | .str _ s => Ev.text s :: streamImpl (popTo it.parent st).2 rest)
+
+mutual
+/-- the pre-order of a tree with parent pointers, as the `next_element` walk delivers it (C01/C02's invariant) -/
+def flat (p : Nat) : Node → List FItem
+  | .str s => [.str p s]
+  | .void t => [.tag p 0 true t [] false]
+  | .elem i o c pre ks => .tag p i false o c pre :: flatL i ks
+def flatL (p : Nat) : List Node → List FItem
+  | [] => []
+  | k :: ks => flat p k ++ flatL p ks
 end
 
 def Node.kids : Node → List Node
